@@ -84,7 +84,15 @@ def run_property(pid, tier, seed):
             out["bounded"].append({"function": k.kid, "bound": k.bounded, "notes": st["notes"]})
         for ob in obs:
             ob.kobj = k
-        allobs += obs
+        # an obligation whose name carries property tags ("[C03 ...; C18 ...]") belongs to those properties only;
+        # untagged obligations (invariants, bounds, callee preconditions) are checked under every property
+        kept = []
+        for ob in obs:
+            tags = set(re.findall(r"C\d\d", " ".join(re.findall(r"\[([^\]]*)\]", ob.name))))
+            if tags and pid not in tags:
+                continue
+            kept.append(ob)
+        allobs += kept
     for l in lemmas:
         obs = l.obligations()
         for ob in obs:
